@@ -433,18 +433,15 @@ def step (s : St) (ws : List String) : St × List String :=
     | some op => stepWOp s op
     | none => (s, ["bad-op"])
 
-/-- may `unwinding <ws>` run?  Only `pop` / `sc_pop` / `backfill` can panic in this vocabulary; they are
-accepted when they do not (harness: `IovecExec::unwind_safe_words`). -/
-def unwindSafe (s : St) (ws : List String) : Bool :=
-  if s.dead then false else
-  match ws with
-  | op :: _ =>
-    if op = "pop" || op = "sc_pop" || op = "backfill" then
-      let out := (step s ws).2
-      !(out.contains "panic") && !(out.contains "R panicked") && !(out.contains "bad-op")
-    else true
-  | [] => false
-
-def family : Family := withUnwind { σ := St, init := St.init, step := step } unwindSafe
+/-- `unwinding <ws>`: only `pop` / `sc_pop` / `backfill` can panic in this vocabulary; they are accepted when
+they do not (harness: `IovecExec::unwind_safe_words`), decided on the op's own answer. -/
+def family : Family :=
+  withUnwindOut { σ := St, init := St.init, step := step } (fun s _ => !s.dead)
+    (fun ws outs =>
+      match ws with
+      | op :: _ =>
+        (op = "pop" || op = "sc_pop" || op = "backfill") &&
+          (outs.contains "panic" || outs.contains "R panicked" || outs.contains "bad-op")
+      | [] => true)
 
 end Woodpile.Driver.IovecFam
